@@ -338,7 +338,7 @@ CHECKS = {
         level_note="independent matcher gn.Matches + completePath written from the documentation; in-memory stream double",
         rule=("cases are scenarios of 8-30 steps; non-trivial = a completed round with a non-empty result whose subscription has a glob in a non-final position or targets '*'; distinct = distinct hash of the scenario"),
         assumptions=COMMON + [SYNCTEST_ASSUMPTION],
-        parts=[dict(name="random", run="TestC05Random", checks=dict(quick=2500, thorough=50000), shards=dict(quick=4, thorough=16)),
+        parts=[dict(name="random", run="TestC05Random", checks=dict(quick=2500, thorough=30000), shards=dict(quick=4, thorough=16)),
                # ONCE calls / POLL rounds racing writers of the matched leaves on the real scheduler
                dict(name="stress", run="TestC05Stress", rapid=False, args=dict(quick=["-c05.stress=30"], thorough=["-c05.stress=600"]), shards=dict(quick=2, thorough=8))],
     ),
@@ -597,7 +597,7 @@ CHECKS = {
         rule=("cases are histories of 1-60 steps over 1-2 targets; non-trivial = the history contains an update at or below the stored timestamp of an existing leaf "
               "AND a delete that removed at least one leaf; distinct = distinct hash of the scenario"),
         assumptions=COMMON + ["cache.Now is stubbed with a scenario-controlled clock", "random part: single goroutine, every step is a quiescent point"],
-        parts=[dict(name="random", run="TestC02Random", checks=dict(quick=2000, thorough=60000), shards=dict(quick=4, thorough=16)),
+        parts=[dict(name="random", run="TestC02Random", checks=dict(quick=2000, thorough=25000), shards=dict(quick=4, thorough=16)),
                # one target fed from 2-4 goroutines at once, each writing its own leaves (real scheduler, aligned starts): per-leaf discipline and the
                # target's latest accepted timestamp must come out as in any sequential order
                dict(name="parallel", run="TestC02Parallel", checks=dict(quick=120, thorough=600), shards=dict(quick=4, thorough=16),
@@ -614,7 +614,7 @@ CHECKS = {
         rule=("cases are histories of 1-60 steps over 1-3 targets; non-trivial = a delete that produced >=2 feed entries for leaves stored through one shared prefix object, "
               "or a multi-entry notification mixing accepted and rejected updates; distinct = distinct hash of the scenario"),
         assumptions=COMMON + ["cache.Now is stubbed with a scenario-controlled clock", "single goroutine: every step is a quiescent point"],
-        parts=[dict(name="random", run="TestC03Random", checks=dict(quick=2000, thorough=40000), shards=dict(quick=4, thorough=16))],
+        parts=[dict(name="random", run="TestC03Random", checks=dict(quick=2000, thorough=25000), shards=dict(quick=4, thorough=16))],
     ),
     "C14": dict(
         engine="cacheprop",
@@ -627,7 +627,7 @@ CHECKS = {
         rule=("cases are histories of 1-60 steps over 2-4 targets; non-trivial = a Reset or Remove of a target holding >=2 top-level subtrees while another target holds a leaf at one of the same paths; "
               "distinct = distinct hash of the scenario"),
         assumptions=COMMON + ["cache.Now is stubbed with a scenario-controlled clock"],
-        parts=[dict(name="random", run="TestC14Random", checks=dict(quick=2000, thorough=40000), shards=dict(quick=4, thorough=16)),
+        parts=[dict(name="random", run="TestC14Random", checks=dict(quick=2000, thorough=20000), shards=dict(quick=4, thorough=16)),
                dict(name="subscribers", engine="subprop", run="TestC14Sub", checks=dict(quick=1500, thorough=30000), shards=dict(quick=4, thorough=8)),
                # every target driven by its own goroutine at once (collector shape): per-target sequential model, bystanders, structural deadlock verdict
                dict(name="owners", run="TestC14Owners", checks=dict(quick=150, thorough=2500), shards=dict(quick=4, thorough=8))],
